@@ -1792,9 +1792,7 @@ V("C17", "C17.R13", "c17-yaml-copyright-lines-not-text", "shroud/ast.py",
             lst[i] = str(line)
 ''', '', "fire", "copyright[]")
 V("C17", "C17.R13", "c17-yaml-check-after-use", "shroud/ast.py",
-  '''            key = subnode["type"]
-            fields = subnode["fields"]
-            if not isinstance(fields, dict):
+  '''            if not isinstance(fields, dict):
                 raise RuntimeError(
                     "typemap fields must be a dictionary at line {}"
                     .format(subnode.get("__line__", "?")))
@@ -1802,9 +1800,7 @@ V("C17", "C17.R13", "c17-yaml-check-after-use", "shroud/ast.py",
             ntypemap = def_types.get(key, None)
             if ntypemap:
                 ntypemap.update(fields)''',
-  '''            key = subnode["type"]
-            fields = subnode["fields"]
-            def_types = typemap.get_global_types()
+  '''            def_types = typemap.get_global_types()
             ntypemap = def_types.get(key, None)
             if ntypemap:
                 ntypemap.update(fields)
@@ -2223,3 +2219,21 @@ V("C14", "C14.R13", "c14-typedef-format-dropped", "shroud/ast.py",
 
         self.ast = ast
 ''', "fire", "TypedefNode.__init__:format")
+RV("C17", "C17.G1", "c17-typemap-type-unchecked", "398fcff", "required-key-presence-only")
+V("C08", "C08.R9", "c08-expose-chain-respelled", "shroud/wrapp.py",
+  '''        if len(self.overloaded_methods[ast.name]) > 1:
+            # Only expose a multi-dispatch name, not each overload
+            expose = False
+        elif found_default:''',
+  '''        if len(self.overloaded_methods[ast.name]) >= 2:
+            # Only expose a multi-dispatch name, not each overload
+            expose = False
+        elif found_default:''', "silent")
+V("C01", "C01.R9", "c01-pure-condition-regrouped", "shroud/wrapf.py",
+  '''            is_pure or (func_is_const and args_all_in)''',
+  '''            (is_pure or func_is_const) and (is_pure or args_all_in)''', "silent")
+V("C10", "C10.R9", "c10-wrapper-body-two-steps", "shroud/wrapc.py",
+  '''            C_code = pre_call + call_code + post_call_pattern + \\
+                     post_call + final_code + return_code''',
+  '''            C_code = pre_call + call_code + post_call_pattern + \\
+                     post_call + (final_code + return_code)''', "silent")
